@@ -187,6 +187,12 @@ func BuildConfig(sc *world.Scenario, w *world.World) configuration.Configuration
 			fc.ControlAlgorithm = &configuration.ControlAlgorithmConfig{Pid: &configuration.PidControlAlgorithmConfig{P: f.Algo.P, I: f.Algo.I, D: f.Algo.D}}
 		case "legacy":
 			fc.ControlLoop = &configuration.ControlLoopConfig{P: f.Algo.P, I: f.Algo.I, D: f.Algo.D} //nolint
+		case "pidword", "directword":
+			// the option given as a bare word, decoded by the real text unmarshaller
+			ca := &configuration.ControlAlgorithmConfig{}
+			if err := ca.UnmarshalText([]byte(strings.TrimSuffix(f.Algo.Kind, "word"))); err == nil {
+				fc.ControlAlgorithm = ca
+			}
 		}
 		st := w.Fans[f.ID]
 		switch f.Kind {
@@ -203,7 +209,9 @@ func BuildConfig(sc *world.Scenario, w *world.World) configuration.Configuration
 		case "cmd":
 			c := &configuration.CmdFanConfig{
 				SetPwm: &configuration.ExecConfig{Exec: st.SetPwmExe, Args: []string{"%pwm%"}},
-				GetPwm: &configuration.ExecConfig{Exec: st.GetPwmExe, Args: []string{}},
+			}
+			if !f.NoGetPwm {
+				c.GetPwm = &configuration.ExecConfig{Exec: st.GetPwmExe, Args: []string{}}
 			}
 			if st.GetRpmExe != "" {
 				c.GetRpm = &configuration.ExecConfig{Exec: st.GetRpmExe, Args: []string{}}
@@ -495,6 +503,9 @@ func (s *Stage) envAction(e world.EnvEvent) func() {
 			s.Cancel()
 		case "setfile":
 			_ = os.WriteFile(s.worldPath(e.Path), []byte(e.Text), 0644)
+		case "remove":
+			_ = os.Remove(s.worldPath(e.Path))
+			s.W.FaultsFired["file.removed"]++
 		case "chmod":
 			_ = os.Chmod(s.worldPath(e.Path), os.FileMode(e.Value))
 			s.W.FaultsFired["perm.flip"]++
